@@ -139,12 +139,13 @@ func (c *caseCtx) candidateClasses() string {
 }
 
 // exec runs one case: both entry points of the checker that is in force.
-func exec(s *stats, cl *cluster, views map[uint64]*storeView, k *kase) {
+func exec(s *stats, cl *cluster, views map[uint64]*storeView, k *kase, suffix string) {
 	c, err := prepare(cl, views, k)
 	if err != nil {
 		s.count("harness_bad_layout", 1)
 		return
 	}
+	c.suffix = suffix
 	w := k.World
 	s.count("cases", 1)
 	name := "replica-checker"
@@ -179,7 +180,7 @@ func exec(s *stats, cl *cluster, views map[uint64]*storeView, k *kase) {
 		s.count("checker_calls", 1)
 		s.count("calls_"+name+"_"+via, 1)
 		if p != nil {
-			s.report(&finding{Key: name + ":panic-in-check:" + via, Size: len(w.Stores)*100 + len(c.origin.Peers)*10,
+			s.report(&finding{Key: name + ":panic-in-check:" + via + suffix, Size: len(w.Stores)*100 + len(c.origin.Peers)*10,
 				What:    fmt.Sprintf("%s (%s) panicked on region [%s]: %v", name, via, k.Region, p),
 				Witness: map[string]interface{}{"case": k, "checker": name, "via": via, "panic": fmt.Sprint(p), "origin": c.origin.Describe()}})
 			continue
@@ -211,29 +212,8 @@ func exec(s *stats, cl *cluster, views map[uint64]*storeView, k *kase) {
 	}
 }
 
-func runWorld(s *stats, w *world, regions []string) error {
-	cl, err := newCluster(w)
-	if err != nil {
-		return err
-	}
-	defer cl.close()
-	s.count("worlds", 1)
-	s.count("worlds_rules_"+w.Rules, 1)
-	s.count("worlds_mode_"+w.Mode, 1)
-	s.count("rules_refused_by_pd_no_store_matches", int64(cl.rulesDropped))
-	if cl.defaultKept {
-		s.count("worlds_custom_rules_without_voter_default_rule_kept", 1)
-	}
-	views := storeViews(cl, w)
-	for _, layout := range regions {
-		exec(s, cl, views, &kase{World: w, Region: layout})
-	}
-	return nil
-}
-
 func randomPhase(r *ev.Run, workers int, total *stats, mu *sync.Mutex) {
 	worlds := r.Pick(6000, 18000)
-	perWorld := 16
 	var wg sync.WaitGroup
 	var fatal sync.Once
 	for wk := 0; wk < workers; wk++ {
@@ -244,11 +224,7 @@ func randomPhase(r *ev.Run, workers int, total *stats, mu *sync.Mutex) {
 			st := newStats()
 			for wi := wk; wi < worlds; wi += workers {
 				w := genWorld(rng)
-				var regions []string
-				for i := 0; i < perWorld; i++ {
-					regions = append(regions, layoutString(genRegion(rng, w)))
-				}
-				if err := runWorld(st, w, regions); err != nil {
+				if err := runHistory(st, w, rng, nil); err != nil {
 					fatal.Do(func() { r.Inconclusive("cannot build cluster: %v", err) })
 					return
 				}
@@ -277,9 +253,13 @@ func replayFile(r *ev.Run, path string, total *stats) {
 		return
 	}
 	k := doc.Witness.Case
-	// the checkers read Go maps: run the case a few times
+	w0, rounds := k.World, []roundDesc{{Regions: []string{k.Region}}}
+	if k.Initial != nil && len(k.History) > 0 {
+		w0, rounds = k.Initial, k.History
+	}
+	// the checkers read Go maps: run the history a few times
 	for i := 0; i < 20; i++ {
-		if err := runWorld(total, k.World, []string{k.Region}); err != nil {
+		if err := runHistory(total, w0, nil, rounds); err != nil {
 			r.Inconclusive("replay: %v", err)
 			return
 		}
@@ -297,7 +277,7 @@ func main() {
 			log.ReplaceGlobals(zap.NewNop(), nil)
 		}
 	}
-	r.Rule("random worlds: 3..10 stores (state up/offline/tombstone; last heartbeat fresh/disconnected/down/never; clearly roomy, clearly low on space, or inside the small-store exemption; labels zone/rack/host, specialUse, engine, $x, a missing location label; busy, snapshot / pending-peer load, exhausted add-peer limit; optionally one fresh empty store), max-replicas 1..5, location labels a subsequence of zone/rack/host, isolation level, strictly-match-label, the five replica switches, low-space-ratio 0.7/0.8/0.9, replica-schedule-limit 64/0, placement rules off / default / 1..3 custom rules (role, count, label constraints in/notIn/exists/notExists incl. exclusive keys, location labels, isolation level), builder mode joint/demote/legacy; 16 random regions per world (1..max+2 peers, learners, leader, down / pending peers). evaluations = checker calls (Check and CheckRegion per case); distinct = checker x entry point x proposed operator (description + step kinds, or nil) x peers-vs-max-replicas relation x classes of stores outside the region")
+	r.Rule("random worlds: 3..10 stores (state up/offline/tombstone; last heartbeat fresh/disconnected/down/never; clearly roomy, clearly low on space, or inside the small-store exemption; labels zone/rack/host, specialUse, engine, $x, a missing location label; busy, snapshot / pending-peer load, exhausted add-peer limit; optionally one fresh empty store), max-replicas 1..5, location labels a subsequence of zone/rack/host, isolation level, strictly-match-label, the five replica switches, low-space-ratio 0.7/0.8/0.9, replica-schedule-limit 64/0, placement rules off / default / 1..3 custom rules (role, count, label constraints in/notIn/exists/notExists incl. exclusive keys, location labels, isolation level), builder mode joint/demote/legacy. Each world is a HISTORY on one long-lived ReplicaChecker / RuleChecker / CheckerController: 4 rounds x 4 random regions (1..max+2 peers, learners, leader, down / pending peers; after a rule update half of them with 1..2 peers), and between rounds one update: a placement rule rewritten under the same group/id (SetRule, DeleteRule+SetRule, SetRules, DeleteRule; constraints tightened / relaxed / other key, count, role, location labels), a store changing zone/host/special labels, state, heartbeat or space, or the settings changing (max-replicas, location labels, isolation level, switches). All oracles use the rules / stores / settings current at the time of the check; violation keys carry :after-rule-update / :after-store-update / :after-config-update. evaluations = checker calls (Check and CheckRegion per case); distinct = checker x entry point x proposed operator (description + step kinds, or nil) x peers-vs-max-replicas relation x classes of stores outside the region")
 	r.Assume("pkg/mock/mockcluster is the cluster (real PersistOptions, real RuleManager, real filters and operator builder); lib/sim replays operator steps like a store would; placement.FitRegion (judged by C12) gives the per-rule peers, orphans and satisfaction used by the rule-checker oracles")
 	r.Assume("store predicates are three-valued and recomputed from StoreInfo fields: heartbeat two days ahead = connected, ten minutes or more behind the process start = disconnected; available >= threshold+15 points = roomy, <= threshold/2 and outside the <30 regions & >8GiB exemption = low; anything else, upper-case / empty / missing location labels, exclusive labels with placement rules off are skipped_ambiguous")
 	r.Assume("rule checker: the rule an added peer is meant for is the rule of the peer the operator removes, else any rule with fewer peers than its count; the add is accepted if the target satisfies the label constraints and isolation level of one of them. Busy / snapshot / pending-peer / store-limit load of a target is counted, not judged (not in the statement)")
